@@ -56,6 +56,15 @@ CLAIMED["C17"] = (
     "ASCII identifier content, no permission errors; uuid4, subscription identity and clock are inputs.",
     "DESIGN.md §6 C17")
 
+CLAIMED["C19"] = (
+    "Lean 4 model of insights.parsr's process protocol (fuelled mutual interpreter with function-error flag and tag stack) + textbook PEG big-step relation with values; soundness by induction on fuel, completeness by induction on derivations; real combinator object graphs walked into model terms and run against the model; independent PEG reference evaluator, json.loads and boolean evaluation as oracles",
+    "Proof (all terms, inputs, rule tables, fuels): run <=> Ev on tag-free grammars (run_sound, run_complete, ev_deterministic, run_fuel_independent), state untouched by backtracking (backtrack_clean), positions never decrease, "
+    "look-ahead / choice / repetition / option laws, sep_by keeps any first value (the repaired defect). Proved FALSE with witnesses (known findings): backtrack-cleanliness with tags, function-error surfacing, no leading separator. "
+    "Tied: five observables (position, value, failure, function-error flag, tag stack) on ~70k generated (grammar, input) cases per quick run built from the real classes and operators. "
+    "Partial: the shipped JSON and tag-expression grammars are covered by oracle streams (json.loads on the documented subset, boolean evaluation), not translated into model terms; termination (fuel suffices for grammars whose repetitions consume) is assumed, not proved.",
+    "Trusted: Lean kernel + propext/Classical.choice/Quot.sound; the object-graph walker, generators and canonicalisers in harness/c19.py; the mapped-function table (Fn.apply mirrors the Python lambdas); ASCII lower(); json.loads and the hand-written boolean evaluator as references.",
+    "DESIGN.md §6 C19")
+
 PENDING_REASON = "check not built yet in this round (planned: DESIGN.md §6); no claim is made until its model, theorems and correspondence run exist"
 
 
